@@ -9,3 +9,11 @@ def kind_and_mechanism(w, p):
     return (w.get("kind") == p.get("kind")
             and w.get("mechanism") == p.get("mechanism")
             and w.get("mechanism") is not None)
+
+
+def mechanism_in_kinds(w, p):
+    """witness mechanism equals the recorded one and the failing sub-oracle
+    is one of the recorded kinds."""
+    return (w.get("mechanism") is not None
+            and w.get("mechanism") == p.get("mechanism")
+            and w.get("kind") in p.get("kinds", []))
